@@ -322,14 +322,16 @@ def respOfText (ok : V → Bool) (deleted : Bool) (text : List Char) : Resp :=
 def admissionOk (v : V) : Bool := typed admissionTable v
 def conversionOk (v : V) : Bool := typed conversionTable v && convObjectsOk v
 
-/-- The patch file as `ParseOperations` sees it when the text is a JSON stream (`unmarshalFromJson`;
-a text that is not one falls through to the YAML reader, which rejects it as well): `sem` = what the
-schema and the cluster make of well-formed documents. -/
-def patchOfText (deleted : Bool) (sem : Patch) (text : List Char) : Patch :=
+/-- The patch file as `ParseOperations` sees it (`unmarshalFromJSONOrYAML`): first the JSON loop
+(`unmarshalFromJson`); a text that is not a JSON stream of objects is handed to the YAML reader —
+`yaml` = what that reader and the schema make of it (an oracle: YAML is not modelled; YAML's flow
+syntax accepts some damaged JSON, e.g. a trailing comma or an unquoted key). `sem` = what the schema
+and the cluster make of well-formed JSON documents. -/
+def patchOfText (deleted : Bool) (sem yaml : Patch) (text : List Char) : Patch :=
   if deleted then .unreadable
   else if text.isEmpty then .empty
   else match streamOk isObj text with
-    | none => .parseErr
+    | none => yaml
     | some [] => .empty
     | some _ => sem
 
